@@ -252,7 +252,7 @@ func orbit(r rune) []rune {
 
 // ---------------------------------------------------------------- generators
 var words = []string{"foo", "bar", "baz", "a", "b", "ab", "k", "s", "K", "S", "fi", "Kelvin", "ss", "x1", "10", "-", "_", "prom", "é", "É",
-	"ß", "σ", "ς", "Σ", "µ", "ǆ", "日本", "é", "K", "ſ", "ΑΣ", "I", "i", "ı", "İ", "aé", "zz", "foo-bar", "a.b", "q"}
+	"ß", "σ", "ς", "Σ", "µ", "ǆ", "日本", "é", "K", "ſ", "ΑΣ", "I", "i", "ı", "İ", "aé", "zz", "foo-bar", "a.b", "q", "aa", "aba", "abab"}
 
 var alphabet = []rune{'a', 'b', 'c', 'f', 'i', 'k', 's', 'x', 'o', 'r', 'z', 'A', 'B', 'K', 'S', 'F', 'O', '0', '1', '-', '_', ' ', '\n', '.',
 	'é', 'É', 'ß', 'σ', 'ς', 'Σ', 'µ', 'μ', 'K', 'ſ', 'ǆ', 'ǅ', 'Ǆ', '日', 'ﬁ', '́', 'ẞ', 'İ', 'ı', '\U0001F600'}
@@ -368,7 +368,7 @@ func genTemplate(r *gen.Rand) string {
 		}
 		return s
 	}
-	switch r.Intn(30) {
+	switch r.Intn(33) {
 	case 0:
 		return L() + W()
 	case 1:
@@ -450,6 +450,12 @@ func genTemplate(r *gen.Rand) string {
 		return class(r) + class(r) + gen.Pick(r, []string{"", class(r)})
 	case 28:
 		return W() + "(?i:" + L() + ")" + W()
+	case 29:
+		return ci(L()) + "(?:" + W() + L() + "|" + L() + ")"
+	case 30:
+		return W() + L() + "(" + L() + ")" + W()
+	case 31:
+		return W() + "(" + L() + ")(" + L() + ")" + W() + gen.Pick(r, []string{"", L() + W()})
 	default:
 		return L() + "(" + W() + "|" + L() + ")"
 	}
@@ -848,7 +854,7 @@ func main() {
 	for i, c := range corpus {
 		emit(gen.Fork(f.Seed, 1_000_000+i), c.pat, c.strs, c.name)
 	}
-	n := f.Count(260, 12000)
+	n := f.Count(260, 4000)
 	for i := 0; i < n; i++ {
 		r := gen.Fork(f.Seed, i)
 		var pat string
@@ -897,6 +903,15 @@ var corpus = []corpusEntry{
 	{"contains", ".*foo.*", []string{"foo", "afoob", "a\nfoo\nb", "fo"}},
 	{"contains-plus", ".+foo.+", []string{"foo", "afoob", "afoo", "foob", "afoofoob", "foofoofoo"}},
 	{"contains-repeat-occurrence", ".?foo.?", []string{"foo", "afoofoo", "foofoo", "afoob", "fooxfoo"}},
+	{"contains-overlap", ".+aa.+", []string{"aaaa", "aaa", "xaay", "aaaaa", "aa"}},
+	{"contains-overlap-2", ".?aba.?", []string{"ababa", "xabay", "abaaba", "aba", "xababa"}},
+	{"contains-overlap-nonl", "(?-s:.+)abab(?-s:.*)", []string{"ababab", "xabab", "abab", "\nabab", "ab\nababab"}},
+	{"ci-literal-then-matcher", "(?i:foo)(?:.*bar|baz)", []string{"foobaz", "FOObaz", "fooxbar", "FOOxbar", "fooBAZ", "foo"}},
+	{"matcher-then-ci-literal", "(?:bar.*|baz)(?i:foo)", []string{"bazfoo", "bazFOO", "barxfoo", "barxFOO", "BAZfoo"}},
+	{"simple-concat-adjacent-literals", ".*(foo)(bar).*", []string{"foobar", "fooxbar", "foo bar", "xfoobarx", "barfoo"}},
+	{"simple-concat-adjacent-literals-2", ".*a(b).*", []string{"ab", "axb", "xabx", "ba"}},
+	{"simple-concat-adjacent-literals-3", ".*foo(bar).*baz.*", []string{"foobarbaz", "fooxbarbaz", "foobar", "foobarxbaz"}},
+	{"simple-concat-merged-literals", ".*foo(?:bar).*", []string{"foobar", "fooxbar", "xfoobarx"}},
 	{"prefix-suffix", "foo.*bar", []string{"foobar", "fooxbar", "foobarx", "fobar"}},
 	{"in-order", ".*foo.*bar.*", []string{"foobar", "barfoo", "xfooybarz", "foo", "bar"}},
 	{"ci-prefix", "(?i:foo).*", []string{"foo", "FOOx", "fOo\n", "fo"}},
